@@ -21,7 +21,8 @@ RULE = ("Hypothesis draws an environment with declared bounds/domains (ordering-
         "keys of Solution.values must equal the syntactic variable set of the recipes in independent natural "
         "order with the declared bounds, also when the constraints are added in a different order.  "
         "Non-trivial = >= 3 variables from >= 2 declarations, or one vector through a non-identity view."
-        '  Also: vector base names with digits (x2, x10), different views with equal derived names in objective vs constraint, and a bound edited after get_bounds() was read (the next read must show it); a plain number as the objective.')
+        '  Also: vector base names with digits (x2, x10), different views with equal derived names in objective vs constraint, and a bound edited after get_bounds() was read (the next read must show it); a plain number as the objective.'
+        ' Also (round 6): vector constraints against arrays / lists with infinite entries on the slack side.')
 BUDGET = {"quick": {"workers": 16, "examples": 600}, "thorough": {"workers": 16, "examples": 8000}}
 ASSUMPTIONS = ["variable names are unique per problem (documented precondition); names that differ only in leading zeros are ordered by the raw name"]
 MANIFEST = {
